@@ -14,7 +14,7 @@ if [ ! -s $base_fail.done ]; then
   git -C /repo worktree remove --force $wt
 fi
 for d in "$@"; do
-  id=$(basename $(dirname $d))-$(basename $d)
+  id=$(basename $d)
   wt=/tmp/seedwt_$id
   git -C /repo worktree add -q --detach $wt HEAD
   ( cd $wt
